@@ -28,10 +28,10 @@ CONSTANTS NChild, Multi, MaxLen, Sizes, MaxOps,
           WeakCloseNotIdempotent,          \* a second Close closes the socket again (error)
           WeakDiscardKeepsBuffer           \* Discard does nothing
 
-VARIABLES buf, closed, dead, wire,
+VARIABLES buf, closed, dead, deaf, wire,
           nops, lastOp, res,
           cur, curBad, expect, refused, destFailed, pre
-tvars == <<buf, closed, dead, wire>>
+tvars == <<buf, closed, dead, deaf, wire>>
 gvars == <<nops, lastOp, res, cur, curBad, expect, refused, destFailed, pre>>
 vars == <<tvars, gvars>>
 
@@ -43,7 +43,7 @@ SumSizes(s) == IF s = <<>> THEN 0 ELSE Head(s)[2] + SumSizes(Tail(s))
 Pre0 == [size |-> 0, sz |-> 0, bad |-> FALSE, closeCalled |-> FALSE]
 Init ==
   /\ buf = [c \in Children |-> <<>>]
-  /\ closed = [c \in Children |-> FALSE] /\ dead = [c \in Children |-> FALSE]
+  /\ closed = [c \in Children |-> FALSE] /\ dead = [c \in Children |-> FALSE] /\ deaf = [c \in Children |-> FALSE]
   /\ wire = [c \in Children |-> <<>>]
   /\ nops = 0 /\ lastOp = "init" /\ res = "ok"
   /\ cur = <<>> /\ curBad = FALSE /\ expect = <<>> /\ refused = {} /\ destFailed = FALSE /\ pre = Pre0
@@ -62,9 +62,12 @@ ChildWrite(c, s, ch) ==
        THEN <<[s EXCEPT !.buf = IF WeakCheckAfterAppend THEN Append(s.buf, ch) ELSE s.buf], "toobig">>
        ELSE <<[s EXCEPT !.buf = Append(s.buf, ch)], "ok">>
 
-ChildFlush(c, s) ==
+(* dr: what a send to a destination that has stopped listening returns this time - "ok" (the datagram goes into the
+   void) or "senderr" (the kernel reports the refusal of an earlier one); either way nothing arrives *)
+ChildFlush(c, s, dr) ==
   IF s.closed THEN <<s, "notopen">>
   ELSE IF dead[c] THEN <<[s EXCEPT !.buf = IF WeakNoResetOnFlushError THEN s.buf ELSE <<>>], "senderr">>
+  ELSE IF deaf[c] THEN <<[s EXCEPT !.buf = IF WeakNoResetOnFlushError /\ dr # "ok" THEN s.buf ELSE <<>>], dr>>
   ELSE <<[s EXCEPT !.buf = <<>>, !.wire = Append(s.wire, s.buf)], "ok">>
 
 ChildDiscard(c, s) == <<[s EXCEPT !.buf = IF WeakDiscardKeepsBuffer THEN s.buf ELSE <<>>], "ok">>
@@ -91,7 +94,7 @@ Apply(o) ==
   /\ closed' = [c \in Children |-> o[1][c].closed]
   /\ wire' = [c \in Children |-> o[1][c].wire]
   /\ res' = o[2]
-  /\ UNCHANGED dead
+  /\ UNCHANGED <<dead, deaf>>
 
 Cur0 == [c \in Children |-> St(c)]
 Step(op) == nops' = nops + 1 /\ lastOp' = op
@@ -108,8 +111,9 @@ Write(kind, id, sz) ==
      /\ refused' = IF o[2] = "ok" THEN refused ELSE refused \cup {id}
      /\ UNCHANGED <<expect, destFailed>>
 
-Flush ==
-  LET o == Fan(ChildFlush, 1, Cur0, "ok", Multi /\ DevMultiFlushStopsAtFirstError)
+Flush(dr) ==
+  LET F(c, s) == ChildFlush(c, s, dr)
+      o == Fan(F, 1, Cur0, "ok", Multi /\ DevMultiFlushStopsAtFirstError)
   IN /\ Apply(o) /\ Step("flush") /\ Pre(0)
      /\ expect' = IF o[2] = "ok" THEN Append(expect, cur) ELSE expect
      /\ cur' = <<>> /\ curBad' = FALSE
@@ -130,7 +134,13 @@ Close ==
 SocketDies(c) ==
   /\ ~dead[c] /\ dead' = [dead EXCEPT ![c] = TRUE] /\ Step("die") /\ res' = "ok" /\ Pre(0)
   /\ destFailed' = TRUE
-  /\ UNCHANGED <<buf, closed, wire, cur, curBad, expect, refused>>
+  /\ UNCHANGED <<buf, closed, deaf, wire, cur, curBad, expect, refused>>
+
+(* fault: nobody listens at destination c any more (the collector went away): sends are refused now and then *)
+Deafen(c) ==
+  /\ ~deaf[c] /\ deaf' = [deaf EXCEPT ![c] = TRUE] /\ Step("deafen") /\ res' = "ok" /\ Pre(0)
+  /\ destFailed' = TRUE
+  /\ UNCHANGED <<buf, closed, dead, wire, cur, curBad, expect, refused>>
 
 (* deviation: after an error the writer gives up on the message WITHOUT telling the transport and
    starts the next one (the generated client on its own; the reporter before the fix) *)
@@ -142,8 +152,8 @@ AbandonRaw ==
 Next ==
   /\ nops < MaxOps
   /\ \/ \E sz \in Sizes : Write("w", nops + 1, sz)
-     \/ Flush \/ Discard \/ Close \/ AbandonRaw
-     \/ \E c \in Children : SocketDies(c)
+     \/ (\E dr \in {"ok", "senderr"} : Flush(dr)) \/ Discard \/ Close \/ AbandonRaw
+     \/ \E c \in Children : SocketDies(c) \/ Deafen(c)
 Spec == Init /\ [][Next]_vars
 
 (***************************************************************************)
@@ -158,7 +168,7 @@ Writes == {"w", "wb", "ws"}
    abandoned one arrives complete, alone, uncorrupted: each sink saw exactly what the writer had
    had accepted for each message whose Flush returned ok, each as one datagram.  On a multi
    transport a destination that fails takes only itself out: see BufferEmptyAfterFlush *)
-ExactDelivery == ~(Multi /\ destFailed) => \A c \in Children : wire[c] = expect
+ExactDelivery == ~(Multi /\ destFailed) => \A c \in Children : ~deaf[c] => wire[c] = expect
 RefusedNeverSent == \A c \in Children : \A i \in 1..Len(wire[c]) : \A k \in 1..Len(wire[c][i]) : wire[c][i][k][1] \notin refused
 BufferEmptyAfterFlush == lastOp = "flush" => \A c \in Children : ~closed[c] => buf[c] = <<>>
 BufferEmptyAfterDiscard == lastOp = "discard" => \A c \in Children : buf[c] = <<>>
